@@ -252,3 +252,17 @@ Fixpoint list_rel {A} (r : A -> A -> bool) (a b : list A) : bool :=
 (* [evolves old new] *)
 Definition evolves (old new : schema) : bool :=
   list_rel sdef_evolves (structs old) (structs new) && list_rel mdef_eqb (multimaps old) (multimaps new).
+
+(* flat rendering of an outcome for the correspondence check (tools/check_grpc.py evaluates the
+   model inside Coq on the sampled schema pairs and reads these lists) *)
+Definition code_counts (l : option (list N)) : list N :=
+  match l with None => [0] | Some c => 1 :: N.of_nat (length c) :: c end.
+Definition code_opts (o : wopts) : list N :=
+  code_counts (o_schema o) ++ [if o_descr o then 1 else 0; o_maxdict o].
+Definition outcome_code (x : outcome) : list N :=
+  match x with
+  | OConnectRefused => [0]
+  | OWriterRefused o => 1 :: code_opts o
+  | OServerRefused o d => 2 :: code_opts o ++ code_counts d
+  | OStream o d same => 3 :: (if same then 1 else 0) :: code_opts o ++ code_counts d
+  end.
